@@ -23,6 +23,7 @@ type rtGen struct {
 	specTodo []string
 	params  map[string]bool
 	bound   map[string]bool
+	boundTy map[string]string
 	oldMode bool
 	lets    map[string]ast.Expr
 	depth   int
@@ -95,6 +96,12 @@ func info(e ast.Expr) (nodeInfo, bool) {
 func (g *rtGen) intOp(e ast.Expr) string {
 	s := g.expr(e)
 	e = unparen(e)
+	if id, ok := e.(*ast.Ident); ok && g.bound[id.Name] {
+		if ty := g.boundTy[id.Name]; ty != "" && ty != "int" {
+			return "int(" + s + ")"
+		}
+		return s
+	}
 	ni, ok := info(e)
 	if !ok {
 		return s
@@ -456,6 +463,10 @@ func (g *rtGen) quant(kind string, fl *ast.FuncLit) string {
 			g.bail("no range for bound variable %s", n)
 		}
 		g.bound[n] = true
+		if g.boundTy == nil {
+			g.boundTy = map[string]string{}
+		}
+		g.boundTy[n] = tys[i]
 		fmt.Fprintf(&sb, "gvcRange(%s, %s)\nfor gvcv_%s := %s; gvcv_%s < %s; gvcv_%s++ {\n%s := %s(gvcv_%s); _ = %s\n", lo, hi, n, lo, n, hi, n, n, tys[i], n, n)
 		closers++
 	}
